@@ -154,3 +154,14 @@ props["C16"]["manifest"] = {
     "note": "Level `other`: the kernel-checked part does not carry the property. Trusted: the harness; process repetition explores, it does not prove.",
     "technique": "Lean theorems on sorted emission and scheduler-independent ordering + N-process byte comparison of every CLI command",
 }
+
+props["C01"] = {
+    "harness": "c01",
+    "level": "proof",
+    "nontrivial": r"^ck run ",
+    "timeout": {"quick": 1500, "thorough": 7200},
+    "rule": "see explanation",
+    "explanation": "work in progress",
+    "trusted_base": [KERNEL, AXIOMS, HARNESS],
+    "assumptions": [],
+}
